@@ -108,12 +108,57 @@ func TestBreakerMachine(t *testing.T) {
 		next := 0
 		sawOpen, sawHalf, straggler, rollback := false, false, false, false
 		n := rapid.IntRange(1, 40).Draw(t, "n")
+		runLeft, runErr := 0, false
+		phased, slid := rapid.IntRange(0, 3).Draw(t, "phased") == 0, true
+		if phased {
+			c.Class("phased-history(run-per-bucket)")
+		}
 		for i := 0; i < n; i++ {
 			now := hx.C.Ms()
-			switch op := rapid.IntRange(0, 5).Draw(t, "op"); {
+			op := rapid.IntRange(0, 6).Draw(t, "op")
+			forceSlide := false
+			if phased && runLeft == 0 { // phased histories: a homogeneous run per bucket, then the window slides by whole buckets
+				if slid {
+					runLeft, runErr, slid = 2*rapid.IntRange(1, 4).Draw(t, "run"), rapid.Bool().Draw(t, "runErr"), false
+				} else {
+					op, forceSlide, slid = 0, true, true
+				}
+			}
+			if runLeft == 0 && op == 6 { // a run of requests that all end the same way: fills a bucket homogeneously
+				runLeft = 2 * rapid.IntRange(2, 5).Draw(t, "run")
+				runErr = rapid.Bool().Draw(t, "runErr")
+			}
+			forcedExit := false
+			if runLeft > 0 {
+				if runLeft%2 == 0 {
+					op = 1
+				} else {
+					op, forcedExit = 5, len(lives) > 0
+				}
+				runLeft--
+			}
+			switch {
 			case op == 0:
 				var dt uint64
-				switch rapid.IntRange(0, 3).Draw(t, "dk") {
+				dk := 4
+				if !forceSlide {
+					dk = rapid.IntRange(0, 5).Draw(t, "dk")
+				}
+				switch dk {
+				case 4, 5: // whole buckets of one rule: the oldest part of its window slides out, the rest stays
+					r := rules[rapid.IntRange(0, nb-1).Draw(t, "ri")]
+					bc := r.StatSlidingWindowBucketCount
+					if bc == 0 || r.StatIntervalMs%bc != 0 {
+						bc = 1
+					}
+					bl := uint64(r.StatIntervalMs / bc)
+					dt = bl * uint64(rapid.IntRange(1, int(bc)).Draw(t, "nbuckets"))
+					if rapid.Bool().Draw(t, "toBoundary") { // land exactly on the next bucket boundary first
+						dt -= now % bl
+					}
+					if dt == 0 {
+						dt = bl
+					}
 				case 0:
 					dt = uint64(rapid.SampledFrom([]int{1, 2, 5, 9, 10, 50, 99, 100, 101, 999, 1000, 3000, 3001}).Draw(t, "dt"))
 				case 1:
@@ -173,10 +218,13 @@ func TestBreakerMachine(t *testing.T) {
 					}
 				}
 			default:
-				k := rapid.IntRange(0, len(lives)-1).Draw(t, "k")
+				k, withErr := len(lives)-1, runErr
+				if !forcedExit {
+					k = rapid.IntRange(0, len(lives)-1).Draw(t, "k")
+					withErr = rapid.Bool().Draw(t, "err")
+				}
 				l := lives[k]
 				lives = append(lives[:k], lives[k+1:]...)
-				withErr := rapid.Bool().Draw(t, "err")
 				rt := now - l.start
 				for k, m := range ms {
 					if m.State != l.states[k] {
